@@ -64,7 +64,7 @@ def run_tlc(
     meta = os.path.join(workdir, "meta_" + re.sub(r"\W", "_", cfg) + f"_{int(time.time()*1000)%100000}")
     shutil.rmtree(meta, ignore_errors=True)
     os.makedirs(meta, exist_ok=True)
-    jopts = ["-XX:+UseParallelGC", "-Xmx12g"]
+    jopts = ["-XX:+UseParallelGC", "-Xmx12g", f"-DTLA-Library={SPEC}"]
     if dfs:
         jopts.append("-Dtlc2.tool.queue.IStateQueue=StateDeque")
     cmd = ["java", *jopts, "-cp", f"{JAR}:{DEPS}", "tlc2.TLC"]
@@ -117,7 +117,7 @@ def run_tlc(
     if r.violated:
         r.trace = parse_error_trace(out)
     if coverage:
-        for mm in re.finditer(r"<(\w+) line \d+, col \d+ to line \d+, col \d+ of module (\w+)>: (\d+):(\d+)", out):
+        for mm in re.finditer(r"<(\w+) line \d+, col \d+ to line \d+, col \d+ of module (\w+)(?: \([\d ]+\))?>: (\d+):(\d+)", out):
             r.coverage[mm.group(1)] = r.coverage.get(mm.group(1), 0) + int(mm.group(4))
     if rc not in (0, 12, 13) and not r.violated:
         # 12 = safety violation, 13 = liveness violation
